@@ -180,9 +180,30 @@ def unstorable(prog):
     return n, col.hits
 
 
+def unassigned(prog):
+    from .generic import possibly_unassigned
+    n = 0
+    out = []
+    for f in prog.all_functions():
+        try:
+            hits = possibly_unassigned(f)
+        except Exception:
+            continue
+        n += 1
+        done = set()
+        for name, x, nd in hits:
+            # the loop variable read after the loop is an idiom (zero iterations are excluded by the callers)
+            if name in done:
+                continue
+            done.add(name)
+            out.append({'construct': f.qualname, 'tag': 'possibly-unassigned', 'where': '%s:%d' % (f.module.rel, x.lineno),
+                        'what': 'local %r may be read before assignment (path-insensitive: correlated tests are not recognised)' % name})
+    return n, out
+
+
 def run(prog):
     res = {}
-    for name, fn in (('unstorable-attribute', unstorable), ('dead-store', dead_stores), ('one-sided-tolerance', one_sided_tolerances), ('discarded-optional', discarded_optionals),
+    for name, fn in (('possibly-unassigned', unassigned), ('unstorable-attribute', unstorable), ('dead-store', dead_stores), ('one-sided-tolerance', one_sided_tolerances), ('discarded-optional', discarded_optionals),
                      ('loop / iteration', nonsense_loops), ('stale-alias', stale_aliases), ('refill-needs-empty', refills)):
         try:
             n, hits = fn(prog)
